@@ -98,6 +98,7 @@ type Contract struct {
 	CallsiteRequires map[string][]*Clause // obligations at every call of a callee, over the caller's variables
 	InvokeEnsures map[string][]*Clause // assumed facts about abstract interface calls made by this function
 	InvokeAssigns map[string][]*AssignItem // extra frame of abstract interface calls made by this function
+	InvokeRequires map[string][]*Clause    // obligations at every abstract interface/callback call made by this function
 	FuncType   string // funcval contract: the function type it applies to
 	IsIface    bool   // interface method contract: Key = "io.Reader.Read"
 	Sig        string // for iface: parameter list text
@@ -338,8 +339,17 @@ func ParseContractFile(path, pkgPath string, cs *ContractSet) {
 					cur.InvokeEnsures[fs[0]] = append(cur.InvokeEnsures[fs[0]], cl)
 					continue
 				}
+				if len(fs) == 3 && fs[1] == "requires" {
+					// invoke callback:T requires [label] clause over c_self, c_<param> and the function's own
+					// parameters: an OBLIGATION at every such call (what this function hands to the callee)
+					if cur.InvokeRequires == nil {
+						cur.InvokeRequires = map[string][]*Clause{}
+					}
+					cur.InvokeRequires[fs[0]] = append(cur.InvokeRequires[fs[0]], mkClause("requires", fs[2]))
+					continue
+				}
 				if len(fs) != 3 || fs[1] != "assigns" {
-					addErr(ln, "invoke needs: <iface.method> assigns <items> | ensures [label] <clause>")
+					addErr(ln, "invoke needs: <iface.method> assigns <items> | ensures [label] <clause> | requires [label] <clause>")
 					continue
 				}
 				if cur.InvokeAssigns == nil {
@@ -1210,7 +1220,11 @@ func GenerateWrappers(pkg *packages.Package, cs *ContractSet) (string, []string)
 		for _, a := range c.Assigns {
 			g.compileAssign(c, a, si, fpos, "pre")
 		}
-		for k, cls := range c.InvokeEnsures {
+		for _, inv := range []struct {
+			m   map[string][]*Clause
+			pre bool
+		}{{c.InvokeEnsures, false}, {c.InvokeRequires, true}} {
+		for k, cls := range inv.m {
 			var ic *Contract
 			for _, o := range mine {
 				if o.IsIface && o.Key == k {
@@ -1232,6 +1246,9 @@ func GenerateWrappers(pkg *packages.Package, cs *ContractSet) (string, []string)
 				ifaceName = strings.ReplaceAll(ic.FuncType, g.pkg.Name+".", "")
 			}
 			pl := []string{"c_self " + ifaceName}
+			if inv.pre {
+				iresults = nil
+			}
 			for _, d := range append(append([]string{}, iparams...), iresults...) {
 				pl = append(pl, "c_"+d)
 			}
@@ -1254,6 +1271,10 @@ func GenerateWrappers(pkg *packages.Package, cs *ContractSet) (string, []string)
 						}
 						return true
 					})
+					if len(oldNodes) > 0 && inv.pre {
+						g.errs = append(g.errs, fmt.Sprintf("%s:%d: clause [%s]: old() is not available in invoke ... requires", cl.File, cl.Line, cl.Label))
+						continue
+					}
 					if len(oldNodes) > 0 {
 						// old(e): the state just before the call
 						f2, oerr := g.expandOld(expr, oldNodes, pl, "bool", g.contractFilePos())
@@ -1264,8 +1285,9 @@ func GenerateWrappers(pkg *packages.Package, cs *ContractSet) (string, []string)
 						final = f2
 					}
 				}
-				fmt.Fprintf(&g.buf, "// %s: assumed of calls to %s [%s]\nfunc %s(%s) bool { return %s }\n\n", c.Key, k, cl.Label, cl.Wrapper, strings.Join(pl, ", "), final)
+				fmt.Fprintf(&g.buf, "// %s: clause about calls to %s [%s]\nfunc %s(%s) bool { return %s }\n\n", c.Key, k, cl.Label, cl.Wrapper, strings.Join(pl, ", "), final)
 			}
+		}
 		}
 		var ikeys []string
 		for k := range c.InvokeAssigns {
